@@ -8,6 +8,11 @@ Binding A: every exported configuration is written as a .par file and run throug
       in subprocesses with different PYTHONHASHSEED (ClassFactory keeps classes in sets); constructors are
       observed through signature-preserving recorders.  Assembled models are run through taurex.taurex.main()
       in-process (-i/-o/-S) and compared with the same components built through the library.
+FactoryVal.tla: one key of one component x the whole value grammar (list lengths 0..3 x numbers / strings / mixed,
+      every scalar spelling): the constructor receives Transform(raw) with its exact type, the object equals the library's.
+FactoryMix.tla (subs): gas / contribution sub-sections under plain, composite '+' and custom python_file selectors:
+      one object per sub-section in the built graph, and the graph equals the library-built one (enhance_class + addGas /
+      add_contribution).  FactoryAsm.tla: the forms of the [Chemistry] selector and [Fitting] sections through the CLI.
 """
 import contextlib
 import io
@@ -640,7 +645,10 @@ def run(ctx):
     ctx.bounds = dict(tier=ctx.tier, max_keys_per_config=2 if q else 3, values_per_key=2,
                       variants='plain, capitalised selector, unknown key, unknown selector, documented mixin composite, custom file; '
                                'composites of 1..3 mixins (3 plugin mixins per kind + built-in) in every order x 2-3 bases per kind, '
-                               'with base-first / two-bases / unknown-mixin / unknown-key variants',
+                               'with base-first / two-bases / unknown-mixin / unknown-key variants; '
+                               'value grammar: every value keyword of every selectable class x list lengths 0..3 x numbers/strings/mixed '
+                               '(scalar spellings on %s); 1..2 sub-sections under plain / composite (<= %d mixins) / custom selectors of '
+                               '[Chemistry] and [Model]' % ('one class per kind' if q else 'every class', 1 if q else 2),
                       hash_seeds=[1, 2] if q else [1, 2, 3, 4])
     ctx.assumptions = ['the committed table harness/data/documented_keywords.json is the documentation (extractor: harness/fx_docs.py)',
                        'constructor arguments are observed by signature-preserving wrappers installed from outside the repository',
@@ -861,7 +869,7 @@ def replay(ctx, violations):
                 cands.setdefault((c['kind'], k), []).append(c['name'])
         for viol in violations:
             v = viol['vector'] or {}
-            if 'par' in v:
+            if 'par' in v and 'model' in v and 'contribs' in v:      # an assembly (value-grammar vectors name their key `par` too)
                 cf = ClassFactory()
                 classes = {k.__name__: k for attr in FX.KIND_ATTR.values() for k in getattr(cf, attr)}
                 run_assemblies(ctx, [v], tmp, classes)
